@@ -229,9 +229,29 @@ Section Proofs.
   (* ---------------------------------------------------------------------------------------- *)
   (* one predict_and_complete call at column i, given the finished earlier columns *)
   Section Column.
+    (* ch: the ch the columns are compared with; only its closure under prediction and completion and the
+       well-formedness of its items are used (instantiated with Spec.ch here and with the position-graph
+       ch of the dynamic lexer in Dyn_proofs.v) *)
+    Variable ch : nat -> item -> Prop.
+    Hypothesis ch_wf : forall k x, ch k x ->
+      In (irule x) G /\ dot x <= length (rhs (irule x)) /\ orig x <= k.
+    Hypothesis ch_pred : forall k x a r,
+      ch k x -> expect x = Some (NT a) -> In r G -> lhs r = a -> ch k (mkItem r 0 k).
+    Hypothesis ch_comp : forall i k y x a,
+      ch i y -> expect y = Some (NT a) -> ch k x -> expect x = None -> orig x = i ->
+      lhs (irule x) = a -> ch k (advance y).
     Variable i : nat.
     Variable cols : list (list item).
-    Hypothesis cols_sound : forall j x, In x (nth j cols []) -> chart j x.
+    Hypothesis cols_sound : forall j x, In x (nth j cols []) -> ch j x.
+
+    Lemma ch_pred_lc k x a : ch k x -> expect x = Some (NT a) ->
+      forall b, lc_reach G a b -> forall r, In r G -> lhs r = b -> ch k (mkItem r 0 k).
+    Proof.
+      intros Hc He. induction 1 as [|b r' c rest Hb IH Hr' Hl Hrhs]; intros r Hr Hlr.
+      - eapply ch_pred; eauto.
+      - eapply (ch_pred k (mkItem r' 0 k) c); eauto.
+        unfold expect; cbn [irule dot]. rewrite Hrhs. reflexivity.
+    Qed.
 
     Definition inq (st : pc_state) (z : item) : Prop := In z (pc_col st) \/ In z (pc_scan st).
 
@@ -284,14 +304,14 @@ Section Proofs.
 
     (* ---- soundness invariant ---- *)
     Definition pc_sound (st : pc_state) : Prop :=
-      (forall x, In x (pc_col st) -> chart i x) /\
-      (forall x, In x (pc_scan st) -> chart i x) /\
-      (forall x, In x (pc_work st) -> chart i x) /\
+      (forall x, In x (pc_col st) -> ch i x) /\
+      (forall x, In x (pc_scan st) -> ch i x) /\
+      (forall x, In x (pc_work st) -> ch i x) /\
       (forall a, In a (pc_held st) ->
-                 exists x, chart i x /\ expect x = None /\ orig x = i /\ lhs (irule x) = a).
+                 exists x, ch i x /\ expect x = None /\ orig x = i /\ lhs (irule x) = a).
 
     Lemma step_items_sound x st :
-      pc_sound st -> chart i x -> forall y, In y (step_items x st) -> chart i y.
+      pc_sound st -> ch i x -> forall y, In y (step_items x st) -> ch i y.
     Proof.
       intros (S1 & S2 & S3 & S4) Hx y Hy. unfold step_items in Hy.
       destruct (expect x) as [[t|a]|] eqn:E.
@@ -299,19 +319,19 @@ Section Proofs.
       - apply in_app_or in Hy. destruct Hy as [Hy|Hy].
         + apply in_map_iff in Hy. destruct Hy as (r & <- & Hr).
           destruct (pred_sound _ _ Hr) as (Hg & Hreach).
-          eapply chart_pred_lc; eauto.
+          eapply ch_pred_lc; eauto.
         + destruct (nat_memP a (pc_held st)) as [Hin|]; [|destruct Hy].
           destruct Hy as [<- |[]]. destruct (S4 a Hin) as (z & Hz & Hez & Hoz & Hlz).
-          eapply chart_comp'; eauto.
+          eapply ch_comp; eauto.
       - apply in_map_iff in Hy. destruct Hy as (o & <- & Ho).
         apply filter_In in Ho. destruct Ho as (Ho & He). apply expects_nt_spec in He.
         destruct (Nat.eqb (orig x) i) eqn:Eo.
-        + apply Nat.eqb_eq in Eo. eapply chart_comp'; eauto.
-        + eapply (chart_comp' (orig x)); eauto.
+        + apply Nat.eqb_eq in Eo. eapply ch_comp; eauto.
+        + eapply (ch_comp (orig x)); eauto.
     Qed.
 
     Lemma pc_sound_ext l st st' :
-      pc_sound st -> (forall y, In y l -> chart i y) -> ext l st st' -> pc_sound st'.
+      pc_sound st -> (forall y, In y l -> ch i y) -> ext l st st' -> pc_sound st'.
     Proof.
       intros (S1 & S2 & S3 & S4) Hl E. repeat split.
       - intros x Hx. destruct (ext_col_inv _ _ _ E x Hx) as [?|(? & _)]; auto.
@@ -324,7 +344,7 @@ Section Proofs.
       pc_sound (mkPC col (x :: work) scan held) ->
       pc_sound (pc_step i cols x (mkPC col work scan held)).
     Proof.
-      intros S. assert (Hx : chart i x) by (apply S; left; auto).
+      intros S. assert (Hx : ch i x) by (apply S; left; auto).
       assert (S' : pc_sound (mkPC col work scan held)).
       { destruct S as (S1 & S2 & S3 & S4). repeat split; auto. intros y Hy. apply S3; right; auto. }
       rewrite pc_step_eq.
@@ -447,9 +467,9 @@ Section Proofs.
       flat_map (fun r => flat_map (fun d => map (fun j => mkItem r d j) (seq 0 (S i)))
                                   (seq 0 (S (length (rhs r))))) G.
 
-    Lemma all_items_In x : chart i x -> In x all_items.
+    Lemma all_items_In x : ch i x -> In x all_items.
     Proof.
-      intros H. apply chart_wf in H. destruct H as (A & B & C). destruct x as [r d j]. cbn [irule dot orig] in *.
+      intros H. apply ch_wf in H. destruct H as (A & B & C). destruct x as [r d j]. cbn [irule dot orig] in *.
       unfold all_items. apply in_flat_map. exists r. split; auto.
       apply in_flat_map. exists d. split; [apply in_seq; lia|].
       apply in_map_iff. exists j. split; auto. apply in_seq; lia.
@@ -503,8 +523,8 @@ Section Proofs.
     Record pc_result (col0 scan0 : list item) (st : pc_state) : Prop := mkPR {
       pr_col0 : incl col0 (pc_col st);
       pr_scan0 : incl scan0 (pc_scan st);
-      pr_sound_c : forall x, In x (pc_col st) -> chart i x;
-      pr_sound_q : forall x, In x (pc_scan st) -> chart i x;
+      pr_sound_c : forall x, In x (pc_col st) -> ch i x;
+      pr_sound_q : forall x, In x (pc_scan st) -> ch i x;
       pr_col_n : forall x, In x (pc_col st) -> is_term_item x = false;
       pr_scan_t : forall x, In x (pc_scan st) -> is_term_item x = true;
       pr_pred : forall x a r, In x (pc_col st) -> expect x = Some (NT a) -> In r G -> lhs r = a ->
@@ -517,7 +537,7 @@ Section Proofs.
 
     Lemma pc_spec col0 scan0 :
       NoDup col0 ->
-      (forall x, In x col0 -> chart i x) -> (forall x, In x scan0 -> chart i x) ->
+      (forall x, In x col0 -> ch i x) -> (forall x, In x scan0 -> ch i x) ->
       (forall x, In x col0 -> is_term_item x = false) -> (forall x, In x scan0 -> is_term_item x = true) ->
       exists st, predict_and_complete predictions (pc_fuel G i) i cols col0 scan0 = Some st /\
                  pc_result col0 scan0 st.
@@ -775,25 +795,25 @@ Section Proofs.
     { intros j x Hx; destruct (Nat.lt_ge_cases j i) as [Hlt|Hge].
       - apply (cl_sound _ _ _ Cl j x Hlt); left; exact Hx.
       - rewrite nth_overflow in Hx by lia; destruct Hx. }
-    destruct (pc_spec i cols cols_sound col scanq ND Sc Sq Dc Dq) as (st & Est & R).
+    destruct (pc_spec chart chart_wf chart_pred' chart_comp' i cols cols_sound col scanq ND Sc Sq Dc Dq) as (st & Est & R).
     pose proof (colf_snoc_eq' cols (pc_col st) i Hlc) as Ec.
     pose proof (colf_snoc_eq' scans (pc_scan st) i Hls) as Eq.
-    exists st. split; auto. split; [|apply (pr_sound_q _ _ _ _ _ R)].
+    exists st. split; auto. split; [|apply (pr_sound_q _ _ _ _ _ _ R)].
     apply (closed_extend i (colf cols) (colf scans)); auto; unfold inT; try rewrite Ec; try rewrite Eq.
     - intros k Hk; split; apply colf_snoc_lt; lia.
-    - apply (pr_col_n _ _ _ _ _ R).
-    - apply (pr_scan_t _ _ _ _ _ R).
-    - intros x [Hx|Hx]; [apply (pr_sound_c _ _ _ _ _ R)|apply (pr_sound_q _ _ _ _ _ R)]; auto.
+    - apply (pr_col_n _ _ _ _ _ _ R).
+    - apply (pr_scan_t _ _ _ _ _ _ R).
+    - intros x [Hx|Hx]; [apply (pr_sound_c _ _ _ _ _ _ R)|apply (pr_sound_q _ _ _ _ _ _ R)]; auto.
     - intros Hi0 r Hr Hl; destruct (Hi Hi0 r Hr Hl);
-        [left; apply (pr_col0 _ _ _ _ _ R)|right; apply (pr_scan0 _ _ _ _ _ R)]; auto.
-    - intros x a r Hx He Hr Hl; apply (pr_pred _ _ _ _ _ R x a r); auto.
+        [left; apply (pr_col0 _ _ _ _ _ _ R)|right; apply (pr_scan0 _ _ _ _ _ _ R)]; auto.
+    - intros x a r Hx He Hr Hl; apply (pr_pred _ _ _ _ _ _ R x a r); auto.
     - intros m x t tk0 Hm Hx He Hn Hmt; destruct (Hs m x t tk0 Hm Hx He Hn Hmt);
-        [left; apply (pr_col0 _ _ _ _ _ R)|right; apply (pr_scan0 _ _ _ _ _ R)]; auto.
+        [left; apply (pr_col0 _ _ _ _ _ _ R)|right; apply (pr_scan0 _ _ _ _ _ _ R)]; auto.
     - intros x y Hx He Hy Hey.
-      assert (Ho : orig x <= i) by (apply (pr_sound_c _ _ _ _ _ R), chart_wf in Hx; lia).
+      assert (Ho : orig x <= i) by (apply (pr_sound_c _ _ _ _ _ _ R), chart_wf in Hx; lia).
       destruct (Nat.eq_dec (orig x) i) as [Heq|Hne].
-      + rewrite Heq, Ec in Hy. apply (pr_comp_here _ _ _ _ _ R x y); auto.
-      + rewrite colf_snoc_lt in Hy by lia. apply (pr_comp_old _ _ _ _ _ R x y); auto.
+      + rewrite Heq, Ec in Hy. apply (pr_comp_here _ _ _ _ _ _ R x y); auto.
+      + rewrite colf_snoc_lt in Hy by lia. apply (pr_comp_old _ _ _ _ _ _ R x y); auto.
   Qed.
 
   Lemma parse_loop_spec : forall toks i cols scans col scanq pre,
